@@ -16,6 +16,7 @@ import random
 
 from vf import boot, e1run
 from vf.gen import program as pg
+from vf.gen import skeletons
 
 PROP = "C10"
 LEVEL = "exploration"
@@ -233,7 +234,7 @@ class Splitter:
         child = []
         self.fam += 1
         self.bi = 0
-        self.deep_p = rng.choice([0.0, 0.15, 0.35])
+        self.deep_p = rng.choice([0.0, 0.2, 0.4])
         base = self.pieces(nodes, child, top=True)
         self.templates[base_name] = "".join(base)
         self.feats.add("extends")
@@ -329,7 +330,7 @@ class Splitter:
         elif k in ("with", "provide"):
             n[3] = B(n[3])
         elif k == "slot":
-            n[3] = B(n[3]) if n[3] else n[3]
+            n[3] = B(n[3], in_fill=True) if n[3] else n[3]
         elif k == "comp" and n[3] is not None:
             body = n[3]
             n[3] = ["implicit", B(body[1], in_fill=True)] if body[0] == "implicit" else [body[0], S(body[1])]
@@ -343,8 +344,12 @@ def shard_compose(spec, rec):
     for i in range(spec["n"]):
         for attempt in range(10):
             prng = random.Random(rng.random())
-            flavour = prng.choice(["slots", "slots", "provide"])
-            prog = pg.ProgGen(prng, flavour).program()
+            if prng.random() < 0.3:
+                # the catalogue of hard compositions (slots nested in default content, forwarding, default passed on ...)
+                prog = skeletons.skeleton_program(prng)[0]
+            else:
+                flavour = prng.choice(["slots", "slots", "provide"])
+                prog = pg.ProgGen(prng, flavour).program()
             if all(e1run.reference(prog, m)[0] == "ok" for m in ("django", "isolated")):
                 break
         else:
@@ -517,7 +522,7 @@ def run_compose_case(env, rec, case):
 # =======================================================================================
 def plan(tier, seed):
     na = 2000 if tier == "quick" else 100000
-    nb = 4000 if tier == "quick" else 60000
+    nb = 6000 if tier == "quick" else 60000
     ns = 8 if tier == "quick" else 16
     shards = [{"name": f"stock_{i:02d}", "kind": "stock", "n": na // ns, "idx": i} for i in range(ns)]
     shards += [{"name": f"compose_{i:02d}", "kind": "compose", "n": nb // ns, "idx": i} for i in range(ns)]
